@@ -223,8 +223,9 @@ ProofLoop(pm, todo, o, acc) ==
          IN ProofLoop(r.pm, todo \ {p}, o,
                       [sent |-> acc.sent \cup r.sent, legal |-> acc.legal /\ r.legal])
 
-\* extra (non PeerState) timeouts are supplied by module Fetch; PeerSync alone has none
-RefreshTick(o, extraTimeouts) ==
+\* extra (non PeerState) timeouts are supplied by the fetch tables and extra bans by the check point
+\* finalization that ends the refresh (module FilterSync); PeerSync alone has none
+RefreshTick(o, extraTimeouts, extraBan) ==
     LET to == {p \in PeerNames : peer[p].st # "None" /\ TimedOut(peer[p])} \cup extraTimeouts
         pm1 == AfterStateReq
         ask == {p \in PeerNames : NeedsNewState(peer[p])}
@@ -232,7 +233,7 @@ RefreshTick(o, extraTimeouts) ==
         r == ProofLoop(pm1, need, o, [sent |-> {}, legal |-> TRUE])
     IN /\ r.legal
        /\ peer' = r.pm
-       /\ out' = [ban |-> {}, drop |-> to,
+       /\ out' = [ban |-> extraBan, drop |-> to,
                   sent |-> {GetLastStateMsg(p) : p \in ask} \cup r.sent]
        /\ UNCHANGED <<world, cfg, now, tip, tipTD, lastN>>
 
